@@ -339,6 +339,18 @@ def check_receive_flushes(P, rule, tables):
                     return (st.user[0], True)
                 return None
 
+            def on_branch(s2, fn, st, blk, cond, label):
+                # the helper's own "nothing buffered" test moved in front of the call: an empty send buffer needs no flush
+                if label not in ("T", "F"):
+                    return None
+                l, op, r = C.cond_atom(fn, cond, label == "T")
+                if isinstance(l, tuple):
+                    return None
+                ln = fn.sn(l)
+                if ln["k"] == "call" and (ln.get("callee") or "") == "mbuf_is_empty" and op == "!=" and ln["args"] and TP.mentions_field(fn, ln["args"][0], "send_mbuf"):
+                    return (True, st.user[1])
+                return None
+
             def on_exit(s2, fn, st, ret_nid, ret_cls, top):
                 if top and st.user[1] and not st.user[0] and not bad:
                     bad.append(ret_nid)
